@@ -177,6 +177,12 @@ func payloads() []payloadCase {
 		{"all-sections-with-broken-flow", map[string]any{"flows": map[string]string{"old.yaml": b64("name: [unclosed\n")},
 			"quotas": map[string]string{"q.yaml": b64(quotaQ)}, "path_params": map[string]string{"pp.yaml": b64("path_params:\n  - url: h.com/new/{id}\n")},
 			"gateway_config": b64("allowed_domains: []\nblocked_domains: []\n"), "metrics": b64(metricsYAML + "# v2\n")}, false},
+		{"path-params-only", map[string]any{"path_params": map[string]string{"pp.yaml": b64("path_params:\n  - url: h.com/new/{id}\n")}}, true},
+		{"undecodable-path-params-with-flow", map[string]any{"flows": map[string]string{"new.yaml": b64(respFlow("fnew", "h.com/new/*", 419))}, "path_params": map[string]string{"pp.yaml": "###"}}, false},
+		{"gateway-config-only", map[string]any{"gateway_config": b64("allowed_domains: []\nblocked_domains: []\n")}, true},
+		{"undecodable-gateway-config-with-flow", map[string]any{"flows": map[string]string{"new.yaml": b64(respFlow("fnew", "h.com/new/*", 419))}, "gateway_config": "###"}, false},
+		{"metrics-only", map[string]any{"metrics": b64(metricsYAML + "# v2\n")}, true},
+		{"undecodable-metrics-with-flow", map[string]any{"flows": map[string]string{"new.yaml": b64(respFlow("fnew", "h.com/new/*", 419))}, "metrics": "###"}, false},
 		{"undecodable-quota", map[string]any{"flows": map[string]string{"new.yaml": b64(respFlow("fnew", "h.com/new/*", 419))}, "quotas": map[string]string{"q.yaml": "###"}}, false},
 		{"empty-flows-section", map[string]any{"flows": map[string]string{}}, true},
 		{"changes-flow-to-unparsable", map[string]any{"flows": map[string]string{"old.yaml": b64("name: [unclosed\n")}}, false},
@@ -209,6 +215,8 @@ func (a *adminFake) RoundTrip(rq *http.Request) (*http.Response, error) {
 // ---- one run ---------------------------------------------------------------------------
 
 type runResult struct {
+	Payload     map[string]any
+	Endpoint    string
 	Status      int
 	Body        string
 	TreeBefore  map[string]string
@@ -219,6 +227,7 @@ type runResult struct {
 	FreshErr    string
 	VosCalls    int64
 	VosTrace    []string
+	VosNames    []string
 	AdminCalls  int
 	AdminLog    []string
 }
@@ -290,13 +299,14 @@ func setupRoot() string {
 	environment.SetMetricsConfigFilePath(filepath.Join(root, "metrics.yaml"))
 	environment.SetDiscoveryStateLocation(filepath.Join(root, "state", "discovery.json"))
 	// the image's built-in default metrics file (used when the user file is absent)
-	os.WriteFile(filepath.Join(root, "state", "default_metrics.yaml"), []byte(metricsYAML), 0o644)
-	os.Setenv(environment.MetricsConfigFileDefaultPathEnvVar, filepath.Join(root, "state", "default_metrics.yaml"))
+	os.WriteFile(filepath.Join(root, "default_metrics.yaml"), []byte(metricsYAML), 0o644)
+	os.Setenv(environment.MetricsConfigFileDefaultPathEnvVar, filepath.Join(root, "default_metrics.yaml"))
 	os.Setenv("LUNAR_FLOWS_PATH_PARAM_CONFIG", filepath.Join(root, "state", "known_endpoints.yaml"))
 	return root
 }
 
 func runCase(t *testing.T, pc payloadCase, endpoint string, vosFail [2]int64, adminFail int) (rr runResult) {
+	rr.Payload, rr.Endpoint = pc.Payload, endpoint
 	mc.Bubble(t, func(t *testing.T) {
 		ctx, cancel := context.WithCancel(context.Background())
 		contextmanager.Get().WithContext(ctx)
@@ -322,6 +332,7 @@ func runCase(t *testing.T, pc payloadCase, endpoint string, vosFail [2]int64, ad
 			rd.VerifHandleApplyFlows()(rec, rq)
 		}
 		rr.VosCalls, rr.VosTrace = vos.Calls(), append([]string{}, vos.Trace()...)
+		rr.VosNames = append([]string{}, vos.Names...)
 		vos.Reset(0, 0)
 		rr.AdminCalls, rr.AdminLog = admin.calls, admin.log
 		admin.failAt = 0
@@ -363,6 +374,43 @@ func diffTrees(a, b map[string]string) string {
 	return strings.Join(d, ", ")
 }
 
+// notStored: after an acknowledged update every file of the payload is on disk with the
+// decoded content; under /apply_flows nothing else is left in the configuration sections.
+func notStored(rr runResult) string {
+	want := map[string]string{}
+	dec := func(v string) string { b, _ := base64.StdEncoding.DecodeString(v); return string(b) }
+	for sec, dir := range map[string]string{"flows": "flows", "quotas": "quotas", "path_params": "path_params"} {
+		if m, ok := rr.Payload[sec].(map[string]string); ok {
+			for name, v := range m {
+				want[dir+"/"+name] = dec(v)
+			}
+		}
+	}
+	if v, ok := rr.Payload["gateway_config"].(string); ok {
+		want["gateway_config.yaml"] = dec(v)
+	}
+	if v, ok := rr.Payload["metrics"].(string); ok {
+		want["metrics.yaml"] = dec(v)
+	}
+	var d []string
+	for k, v := range want {
+		if got, ok := rr.TreeAfter[k]; !ok {
+			d = append(d, "missing "+k)
+		} else if got != v {
+			d = append(d, "differs "+k)
+		}
+	}
+	if rr.Endpoint == "apply_flows" {
+		for k := range rr.TreeAfter {
+			if _, ok := want[k]; !ok && k != "default_metrics.yaml" {
+				d = append(d, "left over "+k)
+			}
+		}
+	}
+	sort.Strings(d)
+	return strings.Join(d, ", ")
+}
+
 func same(a, b []string) bool { return strings.Join(a, "|") == strings.Join(b, "|") }
 
 // oracle returns "" or (clause, explanation)
@@ -381,6 +429,9 @@ func oracle(rr runResult) (string, string) {
 			return "BEHAVIOUR-CHANGED", fmt.Sprintf("the update was refused (status %d) but probe verdicts changed: before %v after %v", rr.Status, rr.ProbeBefore, rr.ProbeAfter)
 		}
 		return "", ""
+	}
+	if d := notStored(rr); d != "" {
+		return "ACCEPTED-NOT-STORED", fmt.Sprintf("the update was acknowledged (status %d) but the configuration on disk is not the payload's: %s", rr.Status, d)
 	}
 	if rr.FreshErr != "" {
 		return "ACCEPTED-UNLOADABLE", fmt.Sprintf("the update was acknowledged (status %d) but the files on disk do not load: %s", rr.Status, rr.FreshErr)
@@ -584,6 +635,9 @@ func TestCheck(t *testing.T) {
 				initial = rp.Initial
 				rr := runCase(t, pc, rp.Endpoint, rp.VosFail, rp.AdminFail)
 				k, w := oracle(rr)
+				for i, n := range rr.VosNames {
+					fmt.Printf("  fs#%d %s\n", i+1, strings.ReplaceAll(n, mc.WorkDir(), ""))
+				}
 				fmt.Printf("payload=%s endpoint=%s vos_fail=%v admin_fail=%d -> status %d body %s\nvos trace %v\nadmin %v\nbefore %v\nafter  %v\nfresh  %v %s\ntree diff: %s\noracle: %s %s\n",
 					pc.Name, rp.Endpoint, rp.VosFail, rp.AdminFail, rr.Status, firstN(rr.Body, 200), rr.VosTrace, rr.AdminLog, rr.ProbeBefore, rr.ProbeAfter, rr.ProbeFresh, rr.FreshErr, diffTrees(rr.TreeBefore, rr.TreeAfter), k, w)
 				if k != "" {
